@@ -109,7 +109,7 @@ func isMetricType(t byte) bool {
 
 // ---------------------------------------------------------------- generators
 
-var keyPool = []string{"", "a", "b", "c", "x", "y", "ts", "n", "ops", "val", "k0", "k1", "long_key_name", "_u", "A", "é", "0", "1", "17"}
+var keyPool = []string{"", "a", "b", "c", "x", "y", "ts", "n", "ops", "val", "k0", "k1", "long_key_name", "_u", "A", "é", "0", "1", "17", "%d", "p%sq"}
 
 type schemaOpts struct {
 	maxDepth   int
@@ -156,7 +156,9 @@ func (r *rng) nonMetricLeaf() *val {
 		}
 		return b
 	}
-	txt := func() []byte { return []byte([]string{"", "s", "hello", "with.dot", "x y"}[r.intn(5)]) }
+	txt := func() []byte {
+		return []byte([]string{"", "s", "hello", "with.dot", "x y", "100%", "%d of %s"}[r.intn(7)])
+	}
 	switch r.intn(15) {
 	case 0:
 		return &val{T: 0x02, B: txt()}
